@@ -13,7 +13,7 @@ from __future__ import annotations
 import itertools
 
 import pymbolic.primitives as prim
-from pymbolic.mapper import CachedIdentityMapper, IdentityMapper
+from pymbolic.mapper import CachedIdentityMapper, CachedWalkMapper, IdentityMapper
 from pymbolic.mapper.optimize import optimize_mapper
 
 RENAME = {"x": prim.Variable("x_r"), "y": prim.Variable("y_r"), "f": prim.Variable("f_r")}
@@ -72,6 +72,16 @@ class KwRenamerSrc(CachedIdentityMapper):
         return (type(expr), expr, args, tuple(sorted(kwargs.items())))
 
 
+class WalkCounterSrc(CachedWalkMapper):
+    """handlers return None: a cached None must still count as a hit"""
+
+    def post_visit(self, expr):
+        CALLS.append(("walk", type(expr).__name__, repr(expr), id(self)))
+
+    def get_cache_key(self, expr):
+        return (type(expr), expr)
+
+
 OPT_FREE = {}
 OPT_FREE_ERRORS = {}
 for _combo in itertools.product((False, True), repeat=5):
@@ -105,3 +115,15 @@ for _combo in itertools.product((False, True), repeat=2):
             inline_get_cache_key=_ik)(KwRenamerSrc)
     except Exception as _exc:
         OPT_KW_ERRORS[_combo] = _exc
+
+# walk family (handlers return None), arguments dropped
+OPT_WALK = {}
+OPT_WALK_ERRORS = {}
+for _combo in itertools.product((False, True), repeat=3):
+    _ir, _ic, _ik = _combo
+    try:
+        OPT_WALK[_combo] = optimize_mapper(
+            drop_args=True, drop_kwargs=True, inline_rec=_ir, inline_cache=_ic,
+            inline_get_cache_key=_ik)(WalkCounterSrc)
+    except Exception as _exc:
+        OPT_WALK_ERRORS[_combo] = _exc
